@@ -14,6 +14,7 @@ CFG = {
         "C13_segsMeet_meaning_full", "C13_findIntersection_meets", "C13_gen_findIntersection_meets",
         "C13_findIntersection_collinear", "C13_findIntersection_collinear_bias",
         "C13_ring_closing_guard_vacuous", "C13_ring_simplicity_not_preserved",
+        "C13_simple_collinear_ordered", "C13_genPos_imp_colOrdered",
     ]],
     "trusted_base": [
         "Lean 4.33.0 kernel; axioms of every theorem printed by #print axioms must be within {propext, Classical.choice, Quot.sound}",
